@@ -89,6 +89,22 @@ def generate(rng):
     scn['in_cap'] = rng.choice([4096, 4096, 64])
     scn['hup_write'] = rng.choice(['ok', 'ok', 'ok', 'eio'])
     scn['after_interact'] = rng.random() < 0.5
+    if esc is not None and scn.get('esc_how') != 'absent' and rng.random() < 0.12:
+        # the child floods its terminal (back-pressure keeps it readable all the time) while the user types the escape
+        # character: the session must still end promptly, however much output is still coming
+        scn['child_out'] = [{'n': 1000, 'dt': 0, 'rep': rng.choice([200, 600, 1500])}]
+        scn.pop('child_exit', None)
+        scn['filters'] = rng.choice(['none', 'none', 'out'])
+        # the flooding child does not read its input meanwhile: what is typed must fit into the terminal's input queue,
+        # otherwise copy loop and child wait for each other (inherent to any such proxy, not what is judged here)
+        scn['in_cap'] = 4096
+        scn.pop('short_writes', None)
+        tot = 0
+        for b in scn['bursts']:
+            room = max(0, 3000 - tot)
+            if len(b['d']) > room:
+                b['d'] = b['d'][:room]
+            tot += len(b['d'])
     scn['out_kind'] = rng.choice(['digits', 'digits', 'bytes', 'utf8'])
     gen_eintr(rng, scn)
     return scn
@@ -124,7 +140,7 @@ def run(scn, prop=None):
         out = []
         received = []
         # ---------------------------------------------------- outer terminal
-        outer = k.pty(out_cap=1 << 20, in_cap=1 << 16)
+        outer = k.pty(out_cap=1 << 23, in_cap=1 << 16)
         outer_master = PtyMaster(outer)
         outer_slave = PtySlave(outer)
         tty_fd = k.alloc_fd(outer_slave)
@@ -141,8 +157,10 @@ def run(scn, prop=None):
                         yield ('write', outer_master, d)
                     except OSError:
                         return
+                    typed_at.append((a.w.now, d))
             while True:
                 yield ('pause',)
+        typed_at = []
         user = peers.Actor(w, k, None, user_gen, 1, 'user')
 
         # --------------------------------------------------------- inner child
@@ -155,21 +173,22 @@ def run(scn, prop=None):
                     yield ('at', st['at'][0], st['at'][1])
                 elif st.get('dt'):
                     yield ('sleep', st['dt'])
-                n = st['n']
-                ok = scn.get('out_kind', 'digits')
-                if ok == 'bytes':
-                    # every byte value, the escape character and the terminal's special characters included
-                    data = bytes((total + i * 37 + (i >> 8) * 11) & 0xff for i in range(n))
-                elif ok == 'utf8':
-                    unit = u'a\xe9\u20ac\U0001f600\n\x1d'.encode('utf-8')
-                    data = (unit * (n // len(unit) + 1))[total % len(unit):][:n]
-                else:
-                    data = (('%06d|' % total) * (n // 7 + 1))[:n].encode()
-                total += n
-                try:
-                    yield ('write', slave, data)
-                except OSError:
-                    return
+                for _rep in range(int(st.get('rep', 1))):
+                    n = st['n']
+                    ok = scn.get('out_kind', 'digits')
+                    if ok == 'bytes':
+                        # every byte value, the escape character and the terminal's special characters included
+                        data = bytes((total + i * 37 + (i >> 8) * 11) & 0xff for i in range(n))
+                    elif ok == 'utf8':
+                        unit = u'a\xe9\u20ac\U0001f600\n\x1d'.encode('utf-8')
+                        data = (unit * (n // len(unit) + 1))[total % len(unit):][:n]
+                    else:
+                        data = (('%06d|' % total) * (n // 7 + 1))[:n].encode()
+                    total += n
+                    try:
+                        yield ('write', slave, data)
+                    except OSError:
+                        return
             ex = scn.get('child_exit')
             deadline = None
             if ex is not None:
@@ -252,7 +271,11 @@ def run(scn, prop=None):
         if filt in ('out', 'both'):
             kwargs['output_filter'] = out_f
         escape_character = None if esc is None else chr(esc)
+        if scn.get('child_out') and any(st.get('rep') for st in scn['child_out']):
+            if scn.get('in_cap', 4096) < 4096 or sum(len(b.get('d', '')) for b in scn.get('bursts', [])) > 3500:
+                raise HarnessError('flood scenario: typed input must fit into the input queue')
         user.start(0)
+        child_fd_at_entry = child.child_fd
         w.begin_op(0)
         w.note('op', (0, 'interact'))
         res = 'ret'
@@ -386,6 +409,24 @@ def run(scn, prop=None):
                         fullt = full if enc is None else codecs.getincrementaldecoder(enc)('replace').decode(full, False)
                         if not (kdead and fullt.startswith(text) and len(text) >= len(wantt)):
                             V('C11.interact_send', 'logfile_send during interact() differs from what was forwarded to the child', log=name)
+        # ---- promptness: once the escape character has been typed, the session ends after a bounded number of further reads
+        # of child output, however much output is still coming (a flooding child must not starve the keyboard)
+        if res == 'ret' and esc is not None and typed_at and not kdead:
+            ebyte_ = bytes([esc])
+            flt_ = in_f if 'input_filter' in kwargs else (lambda x: x)
+            t_e = None
+            for tt, dd in typed_at:
+                if ebyte_ in flt_(dd):
+                    t_e = tt
+                    break
+            if t_e is not None:
+                later = [e for e in w.trace if e[3] == 'read' and e[2] == 'main' and e[1] > t_e and e[1] <= t_ret
+                         and isinstance(e[4], tuple) and e[4] and e[4][0] == child_fd_at_entry]
+                if len(later) > 6:
+                    V('C15.escape_starved', 'the escape character was typed at %.6f s; interact() read child output %d more times '
+                      'before it returned at %.6f s' % (t_e / 1e6, len(later), t_ret / 1e6))
+                if scn.get('child_out') and scn['child_out'][0].get('rep'):
+                    r.w.probe('escape_typed_while_the_child_floods')
         # ---- after the session: the object goes back to ordinary use; what interact() left behind (decoder state of its
         # log helper, terminal mode) must not leak into the next operation's transcript
         if res == 'ret' and not kdead and logs and scn.get('after_interact') and not out:
